@@ -189,7 +189,7 @@ class Shrinker:
         while changed and self.tests < 400:
             changed = False
             # 1. descend into a failing proper subtree
-            for _p, n in sorted(X.subtrees(cur), key=lambda pn: X.size(pn[1])):
+            for _p, n in sorted(standalone_subtrees(cur), key=lambda pn: X.size(pn[1])):
                 if n is not cur and X.size(n) < X.size(cur) and (X.children(n) or n[0] in ('int', 'real')) and self.fails(n) is not None:
                     cur, changed = n, True
                     break
@@ -218,6 +218,17 @@ class Shrinker:
                 if changed:
                     break
         return cur
+
+
+def standalone_subtrees(a, path=()):
+    """subtrees that keep their meaning when printed on their own: the ('neg', x) term of a binary minus is skipped
+    (printed alone it would become a unary minus), its operand x is visited instead"""
+    yield path, a
+    for i, (role, c) in enumerate(X.children(a)):
+        if a[0] == 'sum' and role == 'nonfirst' and c[0] == 'neg':
+            yield from standalone_subtrees(c[1], path + (i, 0))
+        else:
+            yield from standalone_subtrees(c, path + (i,))
 
 
 def _replace_at(a, path, new):
